@@ -26,7 +26,8 @@ RULE = ('generated meshes (2..6 ROADM sites, any degree, 1..4 spans per directio
         'generated Span/SI configurations (power and gain mode, padding, EOL, connector defaults, max length, ROADM '
         'policies incl. 0 dBm). Each design is one observation of the whole network. Non-trivial: a topology in which '
         'auto-design had to insert at least one amplifier or split at least one fibre. Distinct: hash of (equipment '
-        'Span/SI/Roadm, topology). Dedicated cases reproduce the listed known findings.')
+        'Span/SI/Roadm, topology). Dedicated cases reproduce the listed known findings.'
+        ' Also point-to-point lines without ROADMs and meshes with a transceiver attached to a ROADM through a line.')
 ASSUMPTIONS = ['"well-formed" = what docs/json.rst allows and the loaders accept',
                'Raman fibres are generated below the maximum span length (splitting one is not described)',
                'a lumped loss that falls exactly between two split spans may be carried as input attenuation of the '
@@ -307,7 +308,7 @@ def build_inputs(rng, kind):
     tj, _ = G.gen_topology(rng, max_sites=6 if kind == 'mesh' else 4, max_spans=4 if kind == 'long' else 3,
                            long_fibers=(kind == 'long'), per_degree=rng.random() < 0.4,
                            per_freq_loss=rng.random() < 0.4, lumped=rng.random() < 0.3,
-                           no_booster_fused=rng.random() < 0.3, max_km=148)
+                           no_booster_fused=rng.random() < 0.3, max_km=148, chassis=rng.random() < 0.2)
     if rng.random() < 0.2:
         # very short fibres (metres)
         for e in tj['elements']:
